@@ -29,6 +29,8 @@ pub struct Case {
     platform: Option<bool>, // None = omitted, Some(true) = linux, Some(false) = windows
     /// index (into the referenced ids) left out of the id->path map
     missing: Option<u16>,
+    /// the source directory is handed over in a non-normalised spelling (<dir>/<x>/../<rest>)
+    dotted_source: bool,
     /// the map knows only the referenced ids (so that "missing one id" can also mean an EMPTY map) instead of all ids
     minimal_map: bool,
 }
@@ -53,6 +55,9 @@ fn rel_strategy() -> impl Strategy<Value = String> {
         1 => Just(".".to_string()),
         1 => Just("..".to_string()),
         1 => Just("../../../../../../../../../../x".to_string()),
+        // a relative path spelled exactly like one of the buildpack ids
+        2 => any::<u16>().prop_map(|i| IDS[pick_idx(i, IDS.len())].to_string()),
+        1 => Just("../../../elsewhere/bp".to_string()),
         10 => (proptest::collection::vec((seg_strategy(), 1usize..3), 1..7), any::<bool>()).prop_map(|(segs, trail)| {
             let mut s = String::new();
             for (i, (seg, nsep)) in segs.iter().enumerate() {
@@ -94,8 +99,9 @@ fn case_strategy() -> impl Strategy<Value = Case> {
         prop_oneof![Just(None), Just(Some(true)), Just(Some(false))],
         proptest::option::weighted(0.2, any::<u16>()),
         any::<bool>(),
+        proptest::bool::weighted(0.3),
     )
-        .prop_map(|(src, deps, bp_uri, platform, missing, minimal_map)| Case { src, deps, bp_uri, platform, missing, minimal_map })
+        .prop_map(|(src, deps, bp_uri, platform, missing, minimal_map, dotted_source)| Case { src, deps, bp_uri, platform, missing, minimal_map, dotted_source })
 }
 
 fn dep_text(d: &Dep) -> String {
@@ -111,7 +117,7 @@ fn case_json(c: &Case) -> Value {
         Dep::Rel(s) => json!({"rel": s}),
         Dep::Abs(s) => json!({"abs": s}),
         Dep::Other(s) => json!({"other": s}),
-    }).collect::<Vec<_>>(), "bp_uri": c.bp_uri, "platform": c.platform, "missing": c.missing, "minimal_map": c.minimal_map})
+    }).collect::<Vec<_>>(), "bp_uri": c.bp_uri, "platform": c.platform, "missing": c.missing, "minimal_map": c.minimal_map, "dotted_source": c.dotted_source})
 }
 
 fn case_from_json(v: &Value) -> Case {
@@ -135,6 +141,7 @@ fn case_from_json(v: &Value) -> Case {
         platform: v["platform"].as_bool(),
         missing: v["missing"].as_u64().map(|x| x as u16),
         minimal_map: v["minimal_map"].as_bool().unwrap_or(false),
+        dotted_source: v["dotted_source"].as_bool().unwrap_or(false),
     }
 }
 
@@ -226,7 +233,14 @@ fn check(ctx: &Ctx, env: &Env, c: &Case) -> Check {
         return Ok(());
     }
 
-    let result = package_composite_buildpack(&src_dir, &dest, &map);
+    // the same directory, spelled with a `..` component (as CARGO_MANIFEST_DIR joined with ../x typically is)
+    let given_dir = if c.dotted_source {
+        std::fs::create_dir_all(src_dir.parent().unwrap().join("app")).unwrap();
+        src_dir.parent().unwrap().join("app").join("..").join(src_dir.file_name().unwrap())
+    } else {
+        src_dir.clone()
+    };
+    let result = package_composite_buildpack(&given_dir, &dest, &map);
     let out = (|| -> Check {
         match (&result, missing_id) {
             (Ok(()), Some(m)) => Err(Fail::new("C14:unknown-libcnb-id-not-an-error", format!("id {} has no packaged location but packaging succeeded", IDS[m]))),
@@ -277,7 +291,7 @@ fn check(ctx: &Ctx, env: &Env, c: &Case) -> Check {
 }
 
 pub fn run(ctx: &Ctx) {
-    ctx.set_rule("package.toml files with 0..8 dependencies mixing libcnb:<id>, relative paths from segments {name, ., .., ...} with redundant/trailing separators (also empty, climbing above the root), absolute paths (also with ..), docker/https/http/urn/file URIs with query+fragment, in any order and multiplicity; buildpack uri '.', './sub/dir' or '../sibling'; platform omitted/linux/windows; id->path map complete or missing exactly one referenced id; source directory at 0..3 generated URI-safe path segments below the scratch root; driven through package_composite_buildpack, output decoded by Python tomllib. Oracle: same count and order, position-wise expected string (map[id] / own lexical normalisation / verbatim), uri+platform preserved, re-parses; missing id => Err. Non-trivial: >=3 dependencies of >=3 kinds with a relative path containing '..'; distinct = hash of the case.");
+    ctx.set_rule("package.toml files with 0..8 dependencies mixing libcnb:<id>, relative paths from segments {name, ., .., ...} with redundant/trailing separators (also empty, climbing above the root), absolute paths (also with ..), docker/https/http/urn/file URIs with query+fragment, in any order and multiplicity; buildpack uri '.', './sub/dir' or '../sibling'; platform omitted/linux/windows; id->path map complete or missing exactly one referenced id; source directory at 0..3 generated URI-safe path segments below the scratch root, handed over normalised or spelled with a `..` component; driven through package_composite_buildpack, output decoded by Python tomllib. Oracle: same count and order, position-wise expected string (map[id] / own lexical normalisation / verbatim), uri+platform preserved, re-parses; missing id => Err. Non-trivial: >=3 dependencies of >=3 kinds with a relative path containing '..'; distinct = hash of the case.");
     ctx.assume("URI spellings are canonical (lower-case scheme/host, unreserved path characters) so that 'verbatim' is checked on strings the URI library does not re-spell");
     let env = Env { scratch: Scratch::new("c14"), reader: RefCell::new(TomlReader::new()) };
     for (_p, v) in ctx.regress_files() {
